@@ -228,11 +228,22 @@ def _coq(x, mc, oc, normalize, lead, K, D, Tn, rng):
     return 'allR [' + '; '.join(parts) + ']'
 
 
+_CC = [0]
+
+
 def make_cond_case(rng, tier, idx):
     lead = [int(s) for s in rng.integers(1, 4, int(rng.integers(0, 3)))]
     D = int(rng.integers(1, 9))
     a = rng.normal(size=(*lead, D, D + 2)) + 1j * rng.normal(size=(*lead, D, D + 2))
     A = a @ np.conj(np.swapaxes(a, -1, -2)) * 10.0 ** rng.integers(-3, 4)
+    _CC[0] += 1
+    if _CC[0] % 3 == 0:
+        # PSDs of very quiet / very loud signals (-140 .. -300 dB, +300 dB), a different level per leading index, and the zero
+        # PSD of an all-zero mask: the formula has no absolute scale
+        lev = 10.0 ** rng.choice([-14.0, -30.0, -12.0, 30.0, -11.0], size=tuple(lead) + (1, 1))
+        A = A * lev
+        if lead and _CC[0] % 6 == 0:
+            A[(0,) * len(lead)] = 0
     gamma = float(rng.choice([0.0, 1e-3, 0.1, 1.0, 7.0, 100.0])) if rng.random() < 0.7 else float(rng.random())
     A.setflags(write=False)
     rp = {'fn': 'cond', 'A': A, 'gamma': gamma}
@@ -257,12 +268,13 @@ def evaluate_cond(rp, rng=None):
     tr = np.trace(A, axis1=-2, axis2=-1)
     ref = (A + gamma * tr[..., None, None] / D * np.eye(D)) / (1 + gamma)
     scale = np.abs(ref).max()
-    if out.shape != A.shape or np.abs(out - ref).max() > 1e-9 * scale:
+    psc = np.abs(ref).max(axis=(-2, -1), keepdims=True)          # per leading index: the levels may differ by many decades
+    if out.shape != A.shape or (np.abs(out - ref) > 1e-9 * psc).any():
         return 'condition_covariance differs from (Phi + gamma tr(Phi)/D I)/(1+gamma)', 'cond:formula', None, None
-    if np.abs(np.trace(out, axis1=-2, axis2=-1) - tr).max() > 1e-9 * np.abs(tr).max():
+    if (np.abs(np.trace(out, axis1=-2, axis2=-1) - tr) > 1e-9 * np.abs(tr)).any():
         return 'trace not preserved', 'cond:trace', None, None
     ev = np.linalg.eigvalsh((out + np.conj(np.swapaxes(out, -1, -2))) / 2)
-    if ev.min() < -1e-9 * scale:
+    if (ev < -1e-9 * psc[..., 0]).any():
         return 'not PSD', 'cond:psd', None, None
     f = core.container_variants(lambda A_: condition_covariance(A_, gamma), [A], out,
                                 lambda r, e: np.shape(r) == np.shape(e) and np.abs(np.asarray(r) - e).max() <= 1e-9 * scale)
